@@ -3,8 +3,10 @@
    This file: the specification (a map address -> option bytes with store / store_many / load / load_many /
    is_cached / remove), the text rendering of the path tokens generated from mapproxy/cache/path.py
    (gen/Gen_path.v) and compact.py (gen/Gen_compact.v), the storage key of every backend, and the generic
-   "store keyed through a key function".  The detailed operational models of the backends (file system with
-   links, sqlite bulk load with batching, bundle dispatch) are in FileCache.v and SqlCache.v.
+   "store keyed through a key function".  The detailed operational models of the backends are in FileCache.v
+   (file system with symlinked / hardlinked single-colour tiles) and SqlCache.v (sqlite bulk load with its
+   argument batching, per-level dispatch); the compact caches are the keyed store over `compact_key` (their
+   byte-level model belongs to C19).
    No proofs here: the model must keep evaluating when a proof breaks. *)
 From Coq Require Import ZArith NArith List Bool String Ascii Arith.
 From Coq Require Decimal Hexadecimal DecimalString HexadecimalString.
@@ -59,19 +61,22 @@ Inductive op :=
 Inductive out :=
 | ODone
 | OLoad (r : option bytes)
-| OLoadMany (r : list (option bytes))
-| OCached (b : bool).
+| OLoadMany (ok : bool) (r : list (option bytes))   (* return value of load_tiles, content of every tile *)
+| OCached (b : bool)
+| OErr.                                              (* the call raised *)
 
 Definition out_eqb (a b : out) : bool :=
   match a, b with
   | ODone, ODone => true
   | OLoad x, OLoad y => opt_eqb bytes_eqb x y
-  | OLoadMany x, OLoadMany y => list_eqb (opt_eqb bytes_eqb) x y
+  | OLoadMany f x, OLoadMany g y => Bool.eqb f g && list_eqb (opt_eqb bytes_eqb) x y
   | OCached x, OCached y => Bool.eqb x y
+  | OErr, OErr => true
   | _, _ => false
   end.
 
 Definition is_some {A} (o : option A) : bool := match o with Some _ => true | None => false end.
+Definition load_many_out (r : list (option bytes)) : out := OLoadMany (forallb is_some r) r.
 
 (* ------------------------------------------------------------------ the specification *)
 Definition smap := addr -> option bytes.
@@ -84,7 +89,7 @@ Definition spec_step (m : smap) (o : op) : smap * out :=
   | Store a b => (supd m a (Some b), ODone)
   | StoreMany l => (fold_left (fun m ab => supd m (fst ab) (Some (snd ab))) l m, ODone)
   | Load a => (m, OLoad (m a))
-  | LoadMany l => (m, OLoadMany (map m l))
+  | LoadMany l => (m, load_many_out (map m l))
   | IsCached a => (m, OCached (is_some (m a)))
   | Remove a => (supd m a None, ODone)
   end.
@@ -122,7 +127,7 @@ Section Keyed.
     | Store a b => (kv_put s (key a) b, ODone)
     | StoreMany l => (fold_left (fun s ab => kv_put s (key (fst ab)) (snd ab)) l s, ODone)
     | Load a => (s, OLoad (kv_get s (key a)))
-    | LoadMany l => (s, OLoadMany (map (fun a => kv_get s (key a)) l))
+    | LoadMany l => (s, load_many_out (map (fun a => kv_get s (key a)) l))
     | IsCached a => (s, OCached (is_some (kv_get s (key a))))
     | Remove a => (kv_del s (key a), ODone)
     end.
@@ -221,11 +226,10 @@ Fixpoint join_path (p : path) : text :=
   end.
 
 (* ------------------------------------------------------------------ sqlite keys *)
-(* MBTilesCache / GeopackageCache: row (zoom_level, tile_column, tile_row); dimensions are not part of the key *)
-Definition sql_key (a : addr) : Z * Z * Z := (az a, ax a, ay a).
-(* per-level variants: file '<level>.mbtile' / '<level>.gpkg', then the row *)
-Definition sql_level_key (a : addr) : Z * (Z * Z * Z) := (az a, sql_key a).
-Definition sql_level_key_eqb (a b : Z * (Z * Z * Z)) : bool := Z.eqb (fst a) (fst b) && Z3_eqb (snd a) (snd b).
+(* MBTilesCache / GeopackageCache: row (tile_column, tile_row, zoom_level) = tile.coord; dimensions are not part
+   of the key (the configuration loader refuses dimension layers on these back-ends).  The per-level variants
+   choose the file '<level>.mbtile' / '<level>.gpkg' first: the same triple decides. *)
+Definition sql_key (a : addr) : Z * Z * Z := (ax a, ay a, az a).
 
 (* ------------------------------------------------------------------ compact cache keys *)
 (* bundle file (below cache_dir, without extension) and byte offset of the index entry *)
